@@ -80,6 +80,9 @@ class C11(Harness):
                     for s2 in (subsets(MENUS[ts[2]], 1) if ts[2] else [()]):
                         for s3 in (subsets(MENUS[ts[3]], 1) if ts[3] else [()]):
                             out.append({'shape': 'diamond', 'types': list(ts), 'decl': [list(map(list, x)) for x in (s0, s1, s2, s3)], 'route': 'class'})
+        for pair in self.RETYPE:
+            for route in ('class', 'add_parameter'):
+                out.append({'retype': list(pair), 'route': route, 'shape': 'retype', 'types': list(pair)})
         return out
 
     # ------------------------------------------------------------------ resolver
@@ -153,7 +156,60 @@ class C11(Harness):
             mat[lvl] = 'FAIL' if verdict == REJECT else slots
         return mat
 
+    # type pairs outside the four-type menu: (ancestor declaration, redeclaration in the subclass); oracle: if the class is created, its
+    # Parameter accepts its own (inherited) default; creation is refused (RuntimeError) exactly when it does not
+    RETYPE = [
+        ('Date', 'Number'), ('CalendarDate', 'Number'), ('DateRange', 'NumericTuple'), ('CalendarDateRange', 'NumericTuple'), ('Integer', 'Number'),
+        ('Number', 'Integer'), ('Number', 'Date'), ('String', 'Parameter'), ('NumericTuple', 'Tuple'), ('Tuple', 'NumericTuple'), ('Boolean', 'Parameter'),
+        ('Parameter', 'Boolean'), ('List', 'Parameter'), ('XYCoordinates', 'NumericTuple'), ('NumericTuple', 'XYCoordinates'), ('Range', 'NumericTuple'),
+    ]
+
+    def run_retype(self, cfg):
+        import datetime as dt
+        import param
+        reset_globals()
+        anc, new = cfg['retype']
+        defaults = {'Date': dt.datetime(2020, 1, 2), 'CalendarDate': dt.date(2020, 1, 2), 'DateRange': (dt.datetime(2020, 1, 1), dt.datetime(2020, 1, 2)),
+                    'CalendarDateRange': (dt.date(2020, 1, 1), dt.date(2020, 1, 2)), 'Integer': 3, 'Number': 2.5, 'String': 'txt', 'NumericTuple': (1, 2.5, 3),
+                    'Tuple': ('a', 1), 'Boolean': True, 'Parameter': 'anything', 'List': [1], 'XYCoordinates': (1.0, 2.0), 'Range': (1, 2)}
+        vs = []
+        key = dict(shape='retype', types='%s>%s' % (anc, new), route=cfg['route'])
+        A = type('A', (param.Parameterized,), {'x': getattr(param, anc)(default=defaults[anc])})
+        created, exc = None, None
+        try:
+            if cfg['route'] == 'class':
+                created = type('B', (A,), {'x': getattr(param, new)()})
+            else:
+                created = type('B', (A,), {})
+                created.param.add_parameter('x', getattr(param, new)())
+        except Exception as e:
+            exc = e
+        # would the new Parameter type, declared on its own with that default, take it?
+        try:
+            getattr(param, new)(default=defaults[anc])
+            fits = True
+        except Exception:
+            fits = False
+        if exc is None:
+            pobj = created.param['x']
+            try:
+                pobj._validate(created.x)
+                own_ok = True
+            except Exception:
+                own_ok = False
+            if not own_ok or not fits:
+                vs.append(V('invalid-merged-default-accepted', '%s redeclared as %s: the class was created with default %r, which %s(default=...) itself %s' % (
+                    anc, new, created.x, new, 'accepts' if fits else 'refuses'), level=1, **key))
+        elif fits:
+            vs.append(V('valid-merged-default-rejected', '%s redeclared as %s: creation raised %r although %s accepts the inherited default %r' % (
+                anc, new, exc, new, defaults[anc]), level=1, **key))
+        elif not isinstance(exc, RuntimeError):
+            vs.append(V('wrong-exception', '%s redeclared as %s: creation raised %r, not the RuntimeError of a default that fails validation' % (anc, new, exc), level=1, **key))
+        return Result(vs, outcome='retype', hits={'retype': 1}, nontrivial=True)
+
     def run_case(self, cfg):
+        if cfg.get('retype'):
+            return self.run_retype(cfg)
         import param
         reset_globals()
         mat = self.resolve(cfg)
